@@ -29,7 +29,11 @@ ASSUMPTIONS = [
     "sampled by trees_labelled_random, not enumerated (1.7e11 histories for n = 8)",
     "graphs: a link may be inserted twice (beyond's own create_station does so), which must change nothing",
     "registrations: stations on ITRF/TIRF/PEF, orbit frames (None/QSW/TNW) on Kepler orbits given in "
-    "EME2000/GCRF/MOD, solarsystem Moon and Sun frames (at most once per process: a second call reuses a "
+    "EME2000/GCRF/MOD, frames attached (orbit2frame / as_frame, None/QSW/TNW) to state vectors or Kepler orbits "
+    "EXPRESSED IN a frame generated earlier in the history (stations by preference; chains of depth 2-3), "
+    "a point of every new frame converted into ITRF/WGS84/PEF/TIRF/EME2000/TOD, its base frame and the latest "
+    "generated frames, with the recorded conversions and np.array snapshots of every stored Center.offset "
+    "compared bit for bit after every single conversion; solarsystem Moon and Sun frames (at most once per process: a second call reuses a "
     "name, which the property does not cover); EOP configuration missing-pass; conversions compared "
     "bit for bit before/after a registration, round trips to 1e-11 of the largest distance involved",
     "HillFrame(orientation) re-registers the existing name 'Hill' (frames.dynamic['Hill'] is overwritten): "
@@ -572,7 +576,7 @@ def reg_case(draw, shard, tier):
     d = D(draw)
     ops = []
     for _ in range(d.int(2, 12)):
-        kind = d.pick("station", "station", "orbit", "orbit", "orbit", "body")
+        kind = d.pick("station", "station", "orbit", "orbit", "attached", "attached", "attached", "body")
         if kind == "station":
             ops.append(dict(op="station", lat=d.u(-89.0, 89.0), lon=d.u(-180.0, 180.0), alt=d.u(0.0, 3000.0),
                             parent=d.pick("ITRF", "ITRF", "TIRF", "PEF"), equatorial=d.int(0, 5) == 0))
@@ -581,6 +585,14 @@ def reg_case(draw, shard, tier):
                             parent=d.pick("EME2000", "EME2000", "GCRF", "TOD"),
                             a=d.u(6.8e6, 4.3e7), e=d.u(0.0, 0.3), i=d.u(0.05, 3.0), raan=d.u(0, 6.2), argp=d.u(0, 6.2),
                             nu=d.u(0, 6.2)))
+        elif kind == "attached":
+            # a frame hanging off a frame generated earlier in the history (a station by preference):
+            # the reference is a state vector / orbit EXPRESSED IN that frame, as a radar would give it
+            ops.append(dict(op="attached", base=d.int(0, 999), prefer_station=d.int(0, 2) > 0,
+                            ref=d.pick("sv", "sv", "sv_as_frame", "orbit"), orientation=d.pick(None, None, None, "QSW", "TNW"),
+                            parent=d.pick("EME2000", "GCRF"),
+                            rel=[d.signed(1e3, 1e6) for _ in range(3)] + [d.signed(1.0, 3e3) for _ in range(3)],
+                            point=[d.signed(1.0, 1e5) for _ in range(3)] + [d.signed(1e-2, 1e2) for _ in range(3)]))
         else:
             ops.append(dict(op="body", name=d.pick("Moon", "Sun")))
     return dict(ops=ops, sv=[d.u(-1.0, 1.0) * 7e6 for _ in range(3)] + [d.u(-1.0, 1.0) * 6e3 for _ in range(3)],
@@ -641,11 +653,41 @@ def check_registrations(case):
     def scale_of(*vecs):
         return max(float(np.linalg.norm(v[:3])) for v in vecs), max(float(np.linalg.norm(v[3:])) for v in vecs)
 
+    snaps = {}          # frame name -> (Center, copy of its offset when that is an array)
+    generated = []      # (name, kind) of the frames registered by this history
+    nconv = [0]
+
+    def snapshot(fr):
+        off = getattr(fr.center, "offset", None)
+        if isinstance(off, np.ndarray):
+            snaps[fr.name] = (fr.center, np.array(off, dtype=float, copy=True))
+
+    def offsets_intact(what):
+        """Direct aliasing detector: a conversion must never write into a stored offset."""
+        for nm, (c, before) in snaps.items():
+            now = np.asarray(c.offset, dtype=float)
+            if not np.array_equal(now, before):
+                raise Violation("offset-mutated", f"{what}: the stored offset of the center of '{nm}' changed from "
+                                f"{before.tolist()} to {now.tolist()}", frame=nm)
+
+    def table_intact(what):
+        for (src, dst), before in table.items():
+            now = conv(src, dst)[0]
+            if not np.array_equal(now, before):
+                raise Violation("pre-existing-changed", f"{what}: {src} -> {dst} of the same state changed from "
+                                f"{before.tolist()} to {now.tolist()}", src=src, dst=dst)
+
+    def after_conversion(what):
+        nconv[0] += 1
+        offsets_intact(what)
+        table_intact(what)
+
     record(6)
     graph_audit(orient.EME2000, "orientation")
     graph_audit(center.Earth.node, "center")
     nreg = 0
     worst = 0.0
+    depth = {}
     for step, op in enumerate(case["ops"]):
         _proc["counter"] += 1
         name = f"R{os.getpid() % 1000}x{_proc['counter']}"
@@ -657,6 +699,20 @@ def check_registrations(case):
             rv = tb.kep2cart(op["a"], op["e"], op["i"], op["raan"], op["argp"], op["nu"], mu)
             orb = Orbit(rv.tolist(), date, "cartesian", op["frame"], "Kepler")
             fr = orbit2frame_call(name, orb, op["orientation"], frames.get_frame(op["parent"]))
+        elif op["op"] == "attached":
+            pool = [g for g in generated if g[1] == "station"] if op["prefer_station"] else []
+            pool = pool or generated or [("ITRF", "builtin"), ("EME2000", "builtin")]
+            base = pool[op["base"] % len(pool)][0]
+            if op["ref"] == "orbit":
+                ref = Orbit(op["rel"], date, "cartesian", base, "Kepler")
+            else:
+                ref = StateVector(op["rel"], date, "cartesian", base)
+            kw = {}
+            if op["orientation"]:
+                kw = dict(orientation=op["orientation"], parent=frames.get_frame(op["parent"]))
+            fr = ref.as_frame(name, **kw) if op["ref"] == "sv_as_frame" else orbit2frame_call(
+                name, ref, op["orientation"], frames.get_frame(op["parent"]))
+            depth[name] = depth.get(base, 0) + 1
         else:
             if op["name"] in _proc["bodies"]:
                 continue  # a second call would re-register an existing name
@@ -671,12 +727,37 @@ def check_registrations(case):
         #    reported deterministically here, whereas a conversion through it would never return)
         graph_audit(orient.EME2000, f"{what}: orientation")
         graph_audit(center.Earth.node, f"{what}: center")
-        # 2. conversions among frames that existed before: bit-identical
-        for (src, dst), before in table.items():
-            now = conv(src, dst)[0]
-            if not np.array_equal(now, before):
-                raise Violation("pre-existing-changed", f"{what}: {src} -> {dst} of the same state changed from "
-                                f"{before.tolist()} to {now.tolist()}", src=src, dst=dst)
+        snapshot(fr)
+        if op["op"] == "station":
+            depth[name] = 1
+        generated.append((name, op["op"]))
+        # 2. conversions among frames that existed before: bit-identical; stored offsets untouched
+        offsets_intact(what)
+        table_intact(what)
+        # 2b. a point given in the new frame goes into every orientation family - Earth-fixed, inertial,
+        #     the frame it hangs off and the other generated frames - and after EVERY single conversion
+        #     the pre-existing conversions and the stored offsets are still what they were
+        if op["op"] in ("attached", "station", "orbit"):
+            pt = StateVector(op.get("point", [1000.0, -2000.0, 500.0, 1.0, 2.0, -3.0]), date, "cartesian", name)
+            targets = ["ITRF", "WGS84", "PEF", "TIRF", "EME2000", "TOD"] + [g[0] for g in generated[-4:-1]]
+            if op["op"] == "attached":
+                targets.insert(0, base)
+            for tgt in targets:
+                out = pt.copy(frame=tgt)
+                after_conversion(f"{what}, then converting a point from '{name}' to '{tgt}'")
+                back = np.asarray(out.copy(frame=name).base, float)
+                after_conversion(f"{what}, then converting a point from '{tgt}' to '{name}'")
+                mid = np.asarray(out.base, float)
+                if not (np.all(np.isfinite(mid)) and np.all(np.isfinite(back))):
+                    raise Violation("non-finite", f"{what}: '{name}' -> '{tgt}' gives {mid.tolist()}")
+                sr, sv_ = scale_of(mid, np.asarray(pt.base, float), np.asarray(sv0.base, float))
+                tol_r, tol_v = 1e-11 * sr + 1e-9, 1e-11 * sv_ + 1e-12 + 1e-3 * (1e-11 * sr + 1e-9)
+                er = float(np.linalg.norm(back[:3] - np.asarray(pt.base, float)[:3]))
+                ev = float(np.linalg.norm(back[3:] - np.asarray(pt.base, float)[3:]))
+                worst = max(worst, er / tol_r, ev / tol_v)
+                if er > tol_r or ev > tol_v:
+                    raise Violation("round-trip", f"{what}: '{name}' -> '{tgt}' -> '{name}' is off by {er:.3g} m, "
+                                    f"{ev:.3g} m/s (tol {tol_r:.3g}, {tol_v:.3g})", old=tgt)
         # 3. the new frame converts to and from old ones consistently
         for _ in range(4):
             old = known[next(picks) % len(known)]
@@ -699,9 +780,17 @@ def check_registrations(case):
                 raise Violation("path-dependent", f"{what}: EME2000 -> {old} -> {name} differs from EME2000 -> {name} by "
                                 f"{dr:.3g} m, {dv:.3g} m/s (tol {tol_r:.3g}, {tol_v:.3g})", old=old)
         known.append(name)
-        record(3)
-    return dict(nt=nreg >= 1, cls=[f"regs:{min(nreg, 12) // 4 * 4}+"] + sorted({op["op"] for op in case["ops"]}),
-                ratio=worst)
+        # new recorded conversions favour the generated frames (stations above all)
+        for g in generated[-3:]:
+            for other in ("ITRF", "EME2000"):
+                if len(table) < 30:
+                    table.setdefault((other, g[0]), conv(other, g[0])[0])
+        record(2)
+    offsets_intact("at the end of the history")
+    table_intact("at the end of the history")
+    dmax = max(depth.values(), default=0)
+    return dict(nt=nreg >= 1, cls=[f"regs:{min(nreg, 12) // 4 * 4}+", f"depth:{min(dmax, 3)}"]
+                + sorted({op["op"] for op in case["ops"]}), ratio=worst)
 
 
 def orbit2frame_call(name, orb, orientation, parent):
